@@ -1373,12 +1373,12 @@ def parse_assignment_indices(indices, shape):
 
             start, stop, step = index.indices(size)
 
-            # Note: We now have stop >= start and step >= 0
+            # Note: We now have step >= 0, and stop >= start unless the
+            # original slice had a negative step and selects nothing
 
             div, mod = divmod(stop - start, step)
-            if not div and not mod:
-                # stop equals start => zero-sized slice for this
-                # dimension
+            if stop <= start:
+                # zero-sized slice for this dimension
                 implied_shape.append(0)
             else:
                 if mod != 0:
